@@ -191,6 +191,9 @@ func (x *Exec) globalInit(o *types.Var, st *State) *Value {
 	if v, ok := x.globalVals[o]; ok {
 		return v
 	}
+	if ov, _ := x.eng.override(o.Type()); ov != nil {
+		return nil // abstracted type: the constant is an opaque element
+	}
 	pk := x.eng.pkgs[o.Pkg().Path()]
 	if pk == nil {
 		return nil
@@ -229,12 +232,23 @@ func (x *Exec) globalInit(o *types.Var, st *State) *Value {
 	return nil
 }
 
+func (x *Exec) globalAddr(o *types.Var) *Pointer {
+	id := x.eng.typeID(types.NewNamed(types.NewTypeName(0, o.Pkg(), o.Name()+"!addr", nil), types.Typ[types.Int], nil))
+	return &Pointer{Base: App("globref", IntS, id)}
+}
+
 func (x *Exec) global(o *types.Var, st *State) *Value {
 	if v := x.globalInit(o, st); v != nil {
 		return v
 	}
 	name := "glob!" + relPkg(o.Pkg().Path()) + "." + o.Name()
 	t := o.Type()
+	if !isRefLike(t) && !x.isStruct(t) {
+		if _, isSlice := types.Unalias(t).Underlying().(*types.Slice); !isSlice {
+			// value-typed package variable: lives at a fixed pseudo-reference so that &v and v agree
+			return x.load(st, x.globalAddr(o), t)
+		}
+	}
 	if x.isStruct(t) {
 		// package-level struct value lives at a fixed pseudo-reference
 		ref := App("globref", IntS, x.eng.typeID(types.NewPointer(types.NewNamed(types.NewTypeName(0, o.Pkg(), o.Name()+"!g", nil), types.Typ[types.Int], nil))))
@@ -375,6 +389,9 @@ func (x *Exec) addrOf(e ast.Expr, st *State) *Pointer {
 			if v, ok := st.env[obj]; ok {
 				return v.P
 			}
+		}
+		if obj != nil && obj.Pkg() != nil && obj.Parent() == obj.Pkg().Scope() && !isRefLike(obj.Type()) {
+			return x.globalAddr(obj)
 		}
 		return nil
 	case *ast.StarExpr:
